@@ -4,7 +4,7 @@
 #include <ctype.h>
 
 const int gq_alts[GQ__N] = { 6, 8, 2, 3, 5, 5, 4, 8, 3, 5 };
-const int gs_alts[GS__N] = { 2, 6, 3, 5, 5, 5 };
+int gs_alts[GS__N] = { 2, 6, 3, 5, 5, 5 };      /* GS_STATUS has a 7th alternative (interim 103), switched on by the C02 enumeration only: see KF-INTERIM-1XX */
 
 static const char *const METHODS[] = { "GET", "POST", "HEAD", "PUT", "DELETE", "OPTIONS" };
 static const int METHOD_NUMS[] = { HTP_M_GET, HTP_M_POST, HTP_M_HEAD, HTP_M_PUT, HTP_M_DELETE, HTP_M_OPTIONS };
@@ -189,9 +189,11 @@ void gx_build(const int *q, const int *s, int ord, int last, gx_msg *t, hx_buf *
     /* ---------------- response ---------------- */
     int r10 = s[GS_VERSION] == 1;
     snprintf(t->rproto, sizeof t->rproto, "%s", r10 ? "HTTP/1.0" : "HTTP/1.1"); t->rpnum = r10 ? 100 : 101;
-    static const int STAT[] = { 200, 204, 304, 404, 500, 200 };
+    static const int STAT[] = { 200, 204, 304, 404, 500, 200, 200 };
     t->status = STAT[s[GS_STATUS]];
     if (s[GS_STATUS] == 5) { hb_puts(res, "HTTP/1.1 100 Continue\r\n\r\n"); t->interim100 = 1; }
+    /* an interim response other than 100 (RFC 8297 Early Hints): not the answer either, the final response follows */
+    if (s[GS_STATUS] == 6) { hb_puts(res, "HTTP/1.1 103 Early Hints\r\nLink: </s.css>; rel=preload\r\n\r\n"); t->interim100 = 2; }
     switch (s[GS_REASON]) {
         case 0: snprintf(t->reason, sizeof t->reason, "OK%d", ord); t->has_reason = 1; hb_printf(res, "%s %d %s\r\n", t->rproto, t->status, t->reason); break;
         case 1: t->reason[0] = 0; t->has_reason = 0; hb_printf(res, "%s %d \r\n", t->rproto, t->status); break;
@@ -332,7 +334,7 @@ int gx_compare(const gx_msg *t, htp_tx_t *tx, const hx_txrec *rec, hx_buf *err, 
     if (tx->response_entity_len != (int64_t) t->resbody.n) MIS("response_entity_len expected %zu got %lld", t->resbody.n, (long long) tx->response_entity_len);
     if (tx->response_message_len < t->res_message_len_min || tx->response_message_len > t->res_message_len_max)
         MIS("response_message_len expected %lld..%lld got %lld", (long long) t->res_message_len_min, (long long) t->res_message_len_max, (long long) tx->response_message_len);
-    if (t->interim100 && tx->seen_100continue != 1) MIS("interim 100 response not recorded (seen_100continue=%d)", tx->seen_100continue);
+    if (t->interim100 == 1 && tx->seen_100continue != 1) MIS("interim 100 response not recorded (seen_100continue=%d)", tx->seen_100continue);
     return bad;
 }
 
